@@ -753,6 +753,15 @@ def _rebuild(ck, p):
 # ---------------------------------------------------------------------------------------------------
 def _base_kind(p, f, pv, op):
     """how an offset is derived from a token slice: ('span-start' | 'first-start' | 'last-end' ..., origins of the slice)"""
+    oid = _offset_id(f, pv, op)
+    fld = oid[1][-1] if oid and oid[1] else "?"
+    k = _base_kind0(p, f, pv, op)
+    if k is None:
+        return None
+    return (k[0].rsplit("-", 1)[0] + "-" + str(fld), k[1])
+
+
+def _base_kind0(p, f, pv, op):
     for o in arg_roots(f, pv, op):
         if o[0] != "call":
             continue
